@@ -36,13 +36,13 @@ def register(CHECKS, H):
         "units": units,
         "level": "model_checking",
         "engine": "E1 history explorer",
-        "technique": "exhaustive enumeration of (source state x target state x copy/move/swap kind x one-step continuation x destruction order) on real Simplex_trees under ASan/UBSan, and of every byte-length perturbation of every serialised buffer (forked probes)",
+        "technique": "exhaustive enumeration of (source state x target state x copy/move/swap kind x one-step continuation x destruction order) on real Simplex_trees and Matrix objects under ASan/UBSan; every byte-length perturbation of every serialised buffer (forked probes); preemption-bounded systematic scheduling of threads owning independent objects (scheduling points = operator new/delete)",
         "level_text": ("for every filtered complex on 3 vertices (values {0,1}; thorough {0,1,2}) in three internal variants (canonical, pending "
                        "dimension recomputation, filtration cache present), for 8 option sets: copy-construct, copy-assign, move-construct, "
                        "move-assign, swap and self-assignments against 12 target states (quick: 4); source and target are fully compared with their "
                        "models, then each is driven through every one-step continuation while the other must stay equal to its model, and "
                        "each is destroyed first in turn. Serialisation: announced size, round trip (binary and text), and deserialize on a "
-                       "tight heap buffer of every length 0..size+16 must throw without touching memory outside the buffer (ASan)"),
+                       "tight heap buffer of every length 0..size+16 must throw without touching memory outside the buffer (ASan). Matrix part: the same kinds on all 129 C05 option sets (every flavour x indexation x column type x row access) for every source history on the triangle universe (<= 4 insertions, <= 1 remove_last; thorough 5/2 and the tetrahedron) against a family of targets, with the full C05 verification of both objects, one-step continuations and both destruction orders. Thread part: see level_note"),
         "level_note": "memory safety is decided by ASan/UBSan on the executed paths only; thread part: every interleaving of 2 threads (each owning a Simplex_tree / Persistent_cohomology / Matrix) at allocation and deallocation points with <= 1 preemption (thorough: <= 2; 3 threads <= 1), each schedule in a forked child under a watchdog and compared with the sequential result; races at non-allocating instructions are below that granularity and are only sampled by a free-running ThreadSanitizer build of the same bodies; trusted: reference complex",
         "rule": "Simplex_tree part: case = one source state (model x variant); matrix part: case = (option set, kind, source history A, target history B); ev.transitions = full observations and length probes executed; non-trivial = model with an edge",
         "bounds": {"quick": "3 vertices x values {0,1}: 148 models x 3 variants, 8 option sets, every length 0..size+16",
